@@ -19,7 +19,9 @@ VARIABLE g   \* [T, np, size, batch, timedep]
 
 RP == <<Q(-1, 1), Zero, Q(1, 2), Q(2, 1)>>
 
-PrevName(k) == IF k = 1 THEN "x_prev" ELSE "y_prev"
+\* the second pair's names are chosen so that the previous names and the current names sort
+\* in different orders (a pairing by sort position instead of by the step map would differ)
+PrevName(k) == IF k = 1 THEN "x_prev" ELSE "a_prev"
 CurrName(k) == IF k = 1 THEN "x_curr" ELSE "y_curr"
 MidName(k) == IF k = 1 THEN "x_mid" ELSE "y_mid"
 
